@@ -2,6 +2,7 @@ package engine
 
 import (
 	"fmt"
+	"regexp"
 	"sort"
 	"strings"
 )
@@ -9,15 +10,25 @@ import (
 // VC accumulates the SMT-LIB text for one verification unit (one function under
 // contract, or one lemma): declarations, definitional facts and the list of
 // obligations.  Terms are plain s-expression strings.
+type decl struct {
+	sym   string // symbol declared/defined ("" for facts)
+	owner string // for facts: the symbol whose presence in a query makes the fact relevant ("" = always)
+	text  string
+}
+
 type VC struct {
 	Unit   string
-	decls  []string
+	decls  []decl
 	seen   map[string]bool
 	n      int
 	Obls   []*Obligation
 	BV     bool // bit-vector mode: sized integers are bit-vectors
 	Notes  []string
 	Assume map[string]bool // assumptions used (for evidence)
+	defs     map[string]string
+	Bound    []string // symbols of quantifier variables currently in scope
+	idx      *vcIndex
+	idxN     int
 	Deferred int            // clauses marked @thorough that were skipped in the quick tier
 }
 
@@ -73,7 +84,7 @@ func sym(s string) string {
 // Declare a fresh constant of the given sort and return its name.
 func (vc *VC) Const(prefix, sort string) string {
 	name := sym(vc.fresh(prefix))
-	vc.decls = append(vc.decls, fmt.Sprintf("(declare-const %s %s)", name, sort))
+	vc.decls = append(vc.decls, decl{sym: name, text: fmt.Sprintf("(declare-const %s %s)", name, sort)})
 	return name
 }
 
@@ -82,7 +93,7 @@ func (vc *VC) Global(name, sort string) string {
 	q := sym(name)
 	if !vc.seen[q] {
 		vc.seen[q] = true
-		vc.decls = append(vc.decls, fmt.Sprintf("(declare-const %s %s)", q, sort))
+		vc.decls = append(vc.decls, decl{sym: q, text: fmt.Sprintf("(declare-const %s %s)", q, sort)})
 	}
 	return q
 }
@@ -92,7 +103,7 @@ func (vc *VC) Fun(name string, args []string, ret string) string {
 	q := sym(name)
 	if !vc.seen[q] {
 		vc.seen[q] = true
-		vc.decls = append(vc.decls, fmt.Sprintf("(declare-fun %s (%s) %s)", q, strings.Join(args, " "), ret))
+		vc.decls = append(vc.decls, decl{sym: q, text: fmt.Sprintf("(declare-fun %s (%s) %s)", q, strings.Join(args, " "), ret)})
 	}
 	return q
 }
@@ -102,14 +113,38 @@ func (vc *VC) Def(prefix, sort, term string) string {
 	if isAtom(term) {
 		return term
 	}
+	for _, b := range vc.Bound {
+		if strings.Contains(term, b) {
+			return term // mentions a bound variable: cannot be named by a constant
+		}
+	}
+	// a declared constant with a defining equation, not define-fun: z3 expands define-fun
+	// macros by substitution at every use, which is exponential on diamond-shaped
+	// control flow (path conditions are referenced by both branches of every test)
+	// hash-consing: the same term always gets the same name, so a goal that literally
+	// repeats an assumed fact is a propositional conflict for the solver
+	if vc.defs == nil {
+		vc.defs = map[string]string{}
+	}
+	if n, ok := vc.defs[sort+"\x00"+term]; ok {
+		return n
+	}
 	name := sym(vc.fresh(prefix))
-	vc.decls = append(vc.decls, fmt.Sprintf("(define-fun %s () %s %s)", name, sort, term))
+	vc.decls = append(vc.decls, decl{sym: name, text: fmt.Sprintf("(declare-const %s %s)", name, sort)})
+	vc.decls = append(vc.decls, decl{owner: name, text: fmt.Sprintf("(assert (= %s %s))", name, term)})
+	vc.defs[sort+"\x00"+term] = name
 	return name
 }
 
-// Fact asserts a globally valid (definitional) fact.
+// Fact asserts a globally valid fact that every query includes.
 func (vc *VC) Fact(term string) {
-	vc.decls = append(vc.decls, fmt.Sprintf("(assert %s)", term))
+	vc.decls = append(vc.decls, decl{text: fmt.Sprintf("(assert %s)", term)})
+}
+
+// FactFor asserts a definitional fact about symbol owner; it is included in a
+// query only when owner occurs in the query's cone of influence.
+func (vc *VC) FactFor(owner, term string) {
+	vc.decls = append(vc.decls, decl{owner: owner, text: fmt.Sprintf("(assert %s)", term)})
 }
 
 func isAtom(t string) bool {
@@ -131,8 +166,83 @@ func (vc *VC) Prelude() string {
 	var b strings.Builder
 	b.WriteString("(set-logic ALL)\n")
 	for _, d := range vc.decls {
-		b.WriteString(d)
+		b.WriteString(d.text)
 		b.WriteByte('\n')
+	}
+	return b.String()
+}
+
+var symRe = regexp.MustCompile(`\|[^|]*\|`)
+
+// index of declarations for cone-of-influence slicing
+type vcIndex struct {
+	bySym  map[string]int
+	owned  map[string][]int
+	refs   [][]string
+	always []int
+}
+
+func (vc *VC) index() *vcIndex {
+	if vc.idx != nil && vc.idxN == len(vc.decls) {
+		return vc.idx
+	}
+	ix := &vcIndex{bySym: map[string]int{}, owned: map[string][]int{}, refs: make([][]string, len(vc.decls))}
+	for i, d := range vc.decls {
+		if d.sym != "" {
+			ix.bySym[d.sym] = i
+		} else if d.owner != "" {
+			ix.owned[d.owner] = append(ix.owned[d.owner], i)
+		} else {
+			ix.always = append(ix.always, i)
+		}
+		ix.refs[i] = symRe.FindAllString(d.text, -1)
+	}
+	vc.idx, vc.idxN = ix, len(vc.decls)
+	return ix
+}
+
+// Slice returns the prelude restricted to the cone of influence of the given terms.
+func (vc *VC) Slice(terms ...string) string {
+	ix := vc.index()
+	need := make([]bool, len(vc.decls))
+	var work []string
+	seen := map[string]bool{}
+	push := func(syms []string) {
+		for _, s := range syms {
+			if !seen[s] {
+				seen[s] = true
+				work = append(work, s)
+			}
+		}
+	}
+	for _, t := range terms {
+		push(symRe.FindAllString(t, -1))
+	}
+	for _, i := range ix.always {
+		need[i] = true
+		push(ix.refs[i])
+	}
+	for len(work) > 0 {
+		s := work[len(work)-1]
+		work = work[:len(work)-1]
+		if i, ok := ix.bySym[s]; ok && !need[i] {
+			need[i] = true
+			push(ix.refs[i])
+		}
+		for _, i := range ix.owned[s] {
+			if !need[i] {
+				need[i] = true
+				push(ix.refs[i])
+			}
+		}
+	}
+	var b strings.Builder
+	b.WriteString("(set-logic ALL)\n")
+	for i, d := range vc.decls {
+		if need[i] {
+			b.WriteString(d.text)
+			b.WriteByte('\n')
+		}
 	}
 	return b.String()
 }
